@@ -254,6 +254,19 @@ def run(ctx):
         bodies = [rl] + list(rt.closures_of(rl.defpath))
         bwl = [c for b in bodies for c in b.calls if c.name in ("remove", "get_mut", "entry") and any("backwards" in describe_operand(b, a) for a in c.args[:1])]
         r.check(bool(bwl), "remove_lane/backwards-updated", where(rl), "remove_lane also takes the lane out of its remotes' backwards entries", "remove_lane leaves the lane in the remotes' backwards entries")
+        # a remote's backwards entry lists *all* lanes it is linked to: when one link goes (an unlink, a failed lane) the entry may be deleted only
+        # once it is empty - otherwise the remote looks idle although it still has links, is pruned, and its other links end without `unlinked`
+        for fb, nm_ in ((rem, "remove"), (rl, "remove_lane")):
+            for bb in [fb] + list(rt.closures_of(fb.defpath)):
+                for c in bb.calls:
+                    whole = (c.name in ("remove", "remove_entry") and "HashMap" in (c.defpath or "") and c.args and "backwards" in describe_operand(bb, c.args[0])) or \
+                            (c.name in ("remove", "remove_entry") and "OccupiedEntry" in (c.defpath or "") and c.args and "backwards" in describe_operand(bb, c.args[0]))
+                    if not whole:
+                        continue
+                    emp = any(d.startswith("is_empty(") and l == "true" for d, l, _ in dom_guards(bb, c.block))
+                    r.check(emp, "%s/backwards-entry-deleted-only-when-empty" % nm_, c.loc(), "the remote's entry in the backwards index is deleted only when no lane is left in it",
+                            "%s deletes the remote's whole backwards entry without testing that it is empty: a remote that is still linked to other lanes no longer has links as far as linked_to / the idle check "
+                            "can see - it is pruned (its channel closed) while links are open, and no `unlinked` is ever sent for them" % nm_)
         il = ctx.saw(rt.fn(name="is_linked", self_adt=LK))
         g = [c for c in il.calls if c.name == "get"]
         cn = [c for b in [il] + list(rt.closures_of(il.defpath)) for c in b.calls if c.name == "contains"]
